@@ -71,7 +71,7 @@ def parseTok (t : String) : Option Tok :=
 
 def stopOk (source stop : String) : Bool :=
   match source with
-  | "engstop" | "pkgstop" | "regrace" | "slowclose" => stop == "nil"
+  | "engstop" | "pkgstop" | "regrace" | "slowclose" | "stormstop" => stop == "nil"
   | "ctxexpired" => stop == "ctx" || stop == "nil"
   | "twice" => stop == "nil,inshutdown"
   | _ => stop == "-"
